@@ -21,6 +21,9 @@ MC_Indices == {0, -1}
 MC_Fns == UnFns \ {"neg"}
 MC_FnsSmall == {"sin", "sqrt", "abs"}
 MC_ScalarLitsSmall == {LitS("int", Q(2, 1)), LitS("float", Q(1, 2))}
+MC_SOpsSmall == {"+", "*", "**"}      \* thorough tier of the derivative checks: one call deeper over a reduced alphabet
+MC_VOpsSmall == {"*"}
+MC_IndicesSmall == {0}
 MC_SOps == {"+", "-", "*", "/", "**"}
 MC_VOps == {"+", "-", "*", "/", "**"}
 MC_Senses == {}
